@@ -92,6 +92,12 @@ def ws_locals(fi):
     return ws
 
 
+def _concat(e):
+    if isinstance(e, ast.BinOp) and isinstance(e.op, ast.Add):
+        return _concat(e.left) + _concat(e.right)
+    return [e]
+
+
 class FixEffects:
     def __init__(self, ctx, summaries):
         self.ctx = ctx
@@ -212,6 +218,27 @@ class FixEffects:
     def _classify_value(self, fi, e, ws):
         if is_ws_expr(e, fi, ws):
             return "WS"
+        # text[0:k] + <whitespace> + text[k:]  where text is the token's own value: only whitespace is added
+        src = e
+        hops = 0
+        while isinstance(src, ast.Name) and hops < 3:
+            vals = [n.value for n in walk_function(fi.node) if isinstance(n, ast.Assign) and len(n.targets) == 1 and isinstance(n.targets[0], ast.Name) and n.targets[0].id == src.id]
+            if len(vals) != 1:
+                break
+            src = vals[0]
+            hops += 1
+        parts = _concat(src)
+        if len(parts) >= 3:
+            segs = [x for x in parts if isinstance(x, ast.Subscript) and isinstance(x.slice, ast.Slice)]
+            rest = [x for x in parts if x not in segs]
+            if len(segs) == 2 and all(is_ws_expr(x, fi, ws) for x in rest) and norm(segs[0].value) == norm(segs[1].value):
+                a, b = segs
+                lo_ok = a.slice.lower is None or (isinstance(a.slice.lower, ast.Constant) and a.slice.lower.value == 0)
+                if lo_ok and a.slice.upper is not None and b.slice.lower is not None and norm(a.slice.upper) == norm(b.slice.lower) and b.slice.upper is None and parts.index(a) < parts.index(b):
+                    base = a.value
+                    bvals = [n.value for n in walk_function(fi.node) if isinstance(n, ast.Assign) and len(n.targets) == 1 and isinstance(n.targets[0], ast.Name) and isinstance(base, ast.Name) and n.targets[0].id == base.id]
+                    if len(bvals) == 1 and isinstance(bvals[0], ast.Call) and isinstance(bvals[0].func, ast.Attribute) and bvals[0].func.attr == "get_value":
+                        return "WSINS:" + norm(bvals[0].func.value)
         # dAction["k"] / oViolation.get_action()["k"]
         if isinstance(e, ast.Subscript):
             b = e.value
